@@ -345,7 +345,7 @@ impl Mapper<Size1GiB> for RecursivePageTable<'_> {
             return Err(UnmapError::ParentEntryHugePage);
         }
 
-        let frame = PhysFrame::from_start_address(p3_entry.addr())
+        let frame = PhysFrame::from_start_address(huge_frame_addr(p3_entry))
             .map_err(|AddressNotAligned| UnmapError::InvalidFrameAddress(p3_entry.addr()))?;
 
         p3_entry.set_unused();
@@ -375,7 +375,8 @@ impl Mapper<Size1GiB> for RecursivePageTable<'_> {
         {
             return Err(FlagUpdateError::ParentEntryHugePage);
         }
-        p3[page.p3_index()].set_flags(flags | Flags::HUGE_PAGE);
+        let frame_addr = huge_frame_addr(&p3[page.p3_index()]);
+        p3[page.p3_index()].set_addr(frame_addr, flags | Flags::HUGE_PAGE);
 
         Ok(MapperFlush::new(page))
     }
@@ -430,7 +431,7 @@ impl Mapper<Size1GiB> for RecursivePageTable<'_> {
             return Err(TranslateError::ParentEntryHugePage);
         }
 
-        PhysFrame::from_start_address(p3_entry.addr())
+        PhysFrame::from_start_address(huge_frame_addr(p3_entry))
             .map_err(|AddressNotAligned| TranslateError::InvalidFrameAddress(p3_entry.addr()))
     }
 }
@@ -488,7 +489,7 @@ impl Mapper<Size2MiB> for RecursivePageTable<'_> {
             return Err(UnmapError::ParentEntryHugePage);
         }
 
-        let frame = PhysFrame::from_start_address(p2_entry.addr())
+        let frame = PhysFrame::from_start_address(huge_frame_addr(p2_entry))
             .map_err(|AddressNotAligned| UnmapError::InvalidFrameAddress(p2_entry.addr()))?;
 
         p2_entry.set_unused();
@@ -525,7 +526,8 @@ impl Mapper<Size2MiB> for RecursivePageTable<'_> {
             return Err(FlagUpdateError::ParentEntryHugePage);
         }
 
-        p2[page.p2_index()].set_flags(flags | Flags::HUGE_PAGE);
+        let frame_addr = huge_frame_addr(&p2[page.p2_index()]);
+        p2[page.p2_index()].set_addr(frame_addr, flags | Flags::HUGE_PAGE);
 
         Ok(MapperFlush::new(page))
     }
@@ -605,7 +607,7 @@ impl Mapper<Size2MiB> for RecursivePageTable<'_> {
             return Err(TranslateError::ParentEntryHugePage);
         }
 
-        PhysFrame::from_start_address(p2_entry.addr())
+        PhysFrame::from_start_address(huge_frame_addr(p2_entry))
             .map_err(|AddressNotAligned| TranslateError::InvalidFrameAddress(p2_entry.addr()))
     }
 }
